@@ -129,6 +129,8 @@ class LogicBlock(SystemWideDevice, ModeDevice):
     def device_removed_from_mode(self, mode: Mode):
         """Unset internal state to prevent leakage."""
         super().device_removed_from_mode(mode)
+        # pending timeout/hit window delays must not outlive the mode
+        self.delay.clear()
         self._state = None
 
     @property
@@ -369,6 +371,11 @@ class Counter(LogicBlock):
 
     def add_control_events_in_mode(self, mode: Mode) -> None:
         """Do not auto enable this device in modes."""
+
+    def device_removed_from_mode(self, mode: Mode):
+        """Stop ignoring hits since the hit window delay has been removed."""
+        super().device_removed_from_mode(mode)
+        self.ignore_hits = False
 
     def _setup_control_events(self, event_list):
         self.debug_log("Setting up control events")
